@@ -9,9 +9,9 @@ open YaegiVerif.Method
     efcbde2 (method depth compared with the field depth), a60b058 (fields promoted through embedded
     fields only, shallowest first), 3081633 (receiver bound when the method value is made),
     16a5ac7 (a value stored in an interface is copied), 32d4f06 (the receiver of a method selected on
-    the value held by an interface is reached at each call), 43e97a5 (several fields at the shallowest
+    the value held by an interface is reached at each call), f4dfaf4 (several fields at the shallowest
     depth: ambiguous), 79ed061 (implements tests the receiver kind), 5c3b0c5 (type switch cases checked,
-    pointer-receiver rejection for own methods only), ccca582 (assertion to a host interface wraps the
+    pointer-receiver rejection for own methods only), bbd3913 (assertion to a host interface wraps the
     held value) -/
 def facts : Facts :=
   { defaultSwap := false,
